@@ -2,9 +2,19 @@
 import numeric
 
 
+def _post(ctx, scns, results):
+    """after the Python replay: the same behaviours in the generated C++ filter, then the helper / boundary agreement"""
+    import cppcheck
+    n = 8 if ctx.quick else 200
+    rc = cppcheck.replay_cpp(ctx, scns[:n], cse_settings=(True,), kind="ekf")
+    extra = cppcheck.record(ctx, rc, key_prefix="cpp:")
+    extra.update(gate_agreement(ctx))
+    return extra
+
+
 def run(ctx):
     return numeric.run_numeric(
-        ctx, sim=("MC_EKF", "MC_C06_sim.cfg"), sim_num_quick=96, sim_num_thorough=2400,
+        ctx, sim=("MC_EKF", "MC_C06_sim.cfg"), sim_num_quick=64, sim_num_thorough=2400, post=_post,
         rule="behaviour = definition + SetEstimate/Update sequence with editing threshold k in {None, 1/2, 1, 3, 5}; the spec decides "
              "the gate exactly ((nis-m)^2 > 2 m k^2, no square root) and a rejected update must leave state and covariance "
              "bit-identical while the innovation is still recorded",
@@ -14,3 +24,134 @@ def run(ctx):
 
 def replay(ctx, path):
     return numeric.replay_file(ctx, path)
+
+
+# ---------------------------------------------------------------- gate agreement (helper, boundary) ----
+def _py_decisions(mods, cases):
+    """python: ExtendedKalmanFilter.remove_innovation on a tiny real filter configured with threshold k"""
+    import numpy as np
+    ui, python = mods["ui"], mods["python"]
+    x, dt = ui.Symbol("x"), ui.Symbol("dt")
+    model = ui.Model(dt=dt, state={x}, control=set(), state_model={x: x})
+    cache = {}
+    out = []
+    for c in cases:
+        k = c["k"]
+        if k not in cache:
+            cache[k] = python.compile_ekf(model, {}, {"s": {"r": x}}, {"s": {"r": 1.0}}, config={"innovation_filtering": k, "common_subexpression_elimination": False})
+        y = np.array(c["y"], dtype=float).reshape((len(c["y"]), 1))
+        S = np.array(c["sinv"], dtype=float).reshape((len(c["y"]), len(c["y"])))
+        try:
+            out.append(bool(cache[k].remove_innovation(y, S)))
+        except Exception as e:
+            out.append("exception:" + type(e).__name__)
+    return out
+
+
+def _cpp_decisions(ctx, cases):
+    import os
+    import cppbuild
+    exe = os.path.join(ctx.work, "gate_driver")
+    ok, err = cppbuild.compile_one({"sources": ["/verif/cxx/gate_driver.cpp"], "out": exe})
+    if not ok:
+        return None, err
+    lines = []
+    for c in cases:
+        vals = [float(c["k"]).hex()] + [float(v).hex() for v in c["y"]] + [float(v).hex() for v in c["sinv"]]
+        lines.append("%d %s" % (len(c["y"]), " ".join(vals)))
+    rc, so, se = cppbuild.run_exe(exe, "\n".join(lines) + "\n", timeout=300)
+    if rc != 0:
+        raise RuntimeError("gate driver exit %d %s" % (rc, se[-300:]))
+    out = {}
+    for line in so.splitlines():
+        t = line.split()
+        if t and t[0] == "D":
+            out[int(t[1])] = bool(int(t[2]))
+    return [out.get(i + 1) for i in range(len(cases))], None
+
+
+def gate_agreement(ctx):
+    """(c) exact cases incl. the boundary from GateCases.tla; (d) +-8 ulp band for m = 1 validated by Gate_Trace.tla"""
+    import math
+    import random
+    from fractions import Fraction
+    import tlc
+    import trace
+    import workers
+    from build import fl
+    r = tlc.run("MC_GateCases", cfg=("MC_GateCases_q.cfg" if ctx.quick else "MC_GateCases.cfg"), workers=ctx.cores, timeout=900)
+    if r.violation:
+        ctx.violation("spec-invariant", r.violation[:600], {})
+    cases = []
+    for s in r.printed:
+        m = s["m"]
+        sinv = [0.0] * (m * m)
+        for i in range(m):
+            sinv[i * m + i] = fl(s["sdiag"][i])
+        cases.append({"k": fl(s["k"]), "y": [fl(q) for q in s["y"]], "sinv": sinv, "discard": bool(s["discard"]), "boundary": bool(s["boundary"]), "spec": s})
+    # python in the pool, c++ in one process
+    chunks = [cases[i::ctx.cores] for i in range(ctx.cores)]
+    chunks = [c for c in chunks if c]
+    res = workers.run_tasks([("props.c06", "_py_decisions", ([{k: v for k, v in c.items() if k != "spec"} for c in ch],), 600) for ch in chunks], procs=ctx.cores)
+    py = {}
+    for ch, (status, out) in zip(chunks, res):
+        if status != "ok":
+            raise RuntimeError(out)
+        for c, o in zip(ch, out):
+            py[id(c)] = o
+    cpp, err = _cpp_decisions(ctx, cases)
+    if cpp is None:
+        ctx.violation("cpp-helper:build-failed", err[-600:], {})
+        cpp = [None] * len(cases)
+    nb = 0
+    for c, dc in zip(cases, cpp):
+        nb += 1 if c["boundary"] else 0
+        dp = py[id(c)]
+        tag = "boundary" if c["boundary"] else "m=%d" % len(c["y"])
+        if dp != c["discard"]:
+            ctx.violation("gate:python:%s" % tag, "m=%d k=%s nis=%s: spec says %s, python remove_innovation says %s" %
+                          (len(c["y"]), c["k"], c["spec"]["nis"], c["discard"], dp), {"case": c["spec"], "python": dp, "cpp": dc})
+        if dc is not None and dc != c["discard"]:
+            ctx.violation("gate:cpp-helper:%s" % tag, "m=%d k=%s nis=%s: spec says %s, removeInnovation says %s" %
+                          (len(c["y"]), c["k"], c["spec"]["nis"], c["discard"], dc), {"case": c["spec"], "python": dp, "cpp": dc})
+    # (d) ulp band, m = 1
+    rnd = random.Random(ctx.seed)
+    band = []
+    for _ in range(300 if ctx.quick else 5000):
+        k = rnd.choice([0.5, 1.0, 2.5, 3.0, 5.0, 7.25])
+        s = rnd.choice([1.0, 0.5, 2.0, 0.125, 3.0, 0.7])
+        thr = k * math.sqrt(2.0) + 1.0
+        z0 = math.sqrt(thr / s)
+        z = z0
+        steps = rnd.randint(-8, 8)
+        for _i in range(abs(steps)):
+            z = math.nextafter(z, math.inf if steps > 0 else -math.inf)
+        if rnd.random() < 0.5:
+            z = -z
+        # exact real-number verdict: z^2 s - 1 > k sqrt(2)  <=>  e > 0 and e^2 > 2 k^2
+        e = Fraction(z) ** 2 * Fraction(s) - 1
+        real = e > 0 and e * e > 2 * Fraction(k) ** 2
+        # distance to the boundary in ulps of z: walk from z toward the boundary until the verdict flips
+        dist = 0
+        zz = abs(z)
+        for d in range(1, 40):
+            zz = math.nextafter(zz, 0.0 if real else math.inf)
+            ee = Fraction(zz) ** 2 * Fraction(s) - 1
+            if (ee > 0 and ee * ee > 2 * Fraction(k) ** 2) != real:
+                dist = d
+                break
+        else:
+            dist = 40
+        band.append({"k": k, "y": [z], "sinv": [s], "real": real, "dist_ulps": dist if real else -dist})
+    res = workers.run_tasks([("props.c06", "_py_decisions", (band,), 600)], procs=1)
+    pyb = res[0][1]
+    cppb, err = _cpp_decisions(ctx, band)
+    traces = [[{"dist_ulps": b["dist_ulps"], "real": b["real"], "decisions": [p, c]}] for b, p, c in zip(band, pyb, cppb or [None] * len(band)) if c is not None and isinstance(p, bool)]
+    verdicts, tres = trace.validate("Gate_Trace", traces)
+    for b, t, v in zip(band, traces, verdicts):
+        if v is not None:
+            ctx.violation("gate:ulp-band", "k=%s s=%s z=%r (%d ulps from the boundary, real verdict %s): decisions python=%s c++=%s" %
+                          (b["k"], b["sinv"][0], b["y"][0], b["dist_ulps"], b["real"], t[0]["decisions"][0], t[0]["decisions"][1]), {"event": t[0], "case": b})
+    inband = sum(1 for b in band if abs(b["dist_ulps"]) <= 2)
+    return {"gate_cases": len(cases), "gate_boundary_cases": nb, "ulp_band_events": len(traces), "ulp_events_inside_band": inband,
+            "gate_states": r.distinct}
